@@ -133,6 +133,8 @@ def conc_compare(p, q, cex, ignore_cfg=(), pos_map=None, idx_map_c=None, q_args=
         s1, e1 = conc_run(p, cex, check_preds=True)
     except ConcViolation as v:
         return False, f"original itself fails: {v}"
+    except ZeroDivisionError:
+        return False, "division by zero in the original on replay"
     try:
         if q_args is not None:
             c2 = dict(cex)
@@ -142,6 +144,10 @@ def conc_compare(p, q, cex, ignore_cfg=(), pos_map=None, idx_map_c=None, q_args=
         s2, e2 = conc_run(q, c2, check_preds=False)
     except ConcViolation as v:
         return True, f"derived procedure fails where the original runs: {v}"
+    except L.IllFormed as v:
+        return True, f"derived procedure is ill-formed: {v}"
+    except ZeroDivisionError:
+        return False, "division by zero in the derived procedure on replay"
     for pos, st1 in enumerate(s1):
         if st1 is None:
             continue
